@@ -363,6 +363,8 @@ def probe_get_spans():
             i0, i1, j0, j1 = bbox
             ctx = STATE["ctx"]
             offs = self.bin1_offsets
+            if i1 > len(offs) - 1 or i0 < 0:
+                return res          # box beyond the axis (unclipped bound, judged by the C03 check itself): nothing to tile
             if (i1 - i0 < 1) or (j1 - j0 < 1):
                 ok = res == []
             else:
